@@ -3,6 +3,7 @@ package hist
 import (
 	"crypto/rand"
 	mrand "math/rand"
+	"os"
 
 	badger "github.com/dgraph-io/badger/v4"
 	"github.com/dgraph-io/badger/v4/options"
@@ -18,6 +19,9 @@ type OptVariant struct {
 // happen after a few dozen commits. variant selects one of a fixed list crossed with r.
 func SmallOptions(dir string, variant int, r *mrand.Rand) OptVariant {
 	o := badger.DefaultOptions(dir).WithLogger(nil)
+	if os.Getenv("VERIF_BADGER_LOG") != "" { // diagnosis only: badger's own log on stderr
+		o = badger.DefaultOptions(dir)
+	}
 	o.MemTableSize = 32 << 10
 	o.BaseTableSize = 16 << 10
 	o.BaseLevelSize = 48 << 10
